@@ -110,12 +110,17 @@ inductive Incoming where
   | request | response | error
   deriving DecidableEq, Repr
 
-/-- `recv_from` after a datagram arrived and parsed: is the message handed up? -/
-def Inflight.recv (s : Inflight) (kind : Incoming) (tid : Nat) (src : Addr) (now : Nat) : Inflight × Bool :=
-  let s := s.cleanup now
+/-- the accept/drop decision of `recv_from` for a datagram that arrived and parsed -/
+def Inflight.decide (s : Inflight) (kind : Incoming) (tid : Nat) (src : Addr) (now : Nat) : Inflight × Bool :=
   if src.port == 0 then (s, false) else
     match kind with
     | .request => (s, true)
     | _ => s.isExpectedResponse tid src now
+
+/-- `recv_from` on a socket that does not block: `cleanup`, then the decision.  (An actor thread
+    runs `cleanup` when it enters `recv_from` and decides when the datagram arrives — see
+    `Actor.step`.) -/
+def Inflight.recv (s : Inflight) (kind : Incoming) (tid : Nat) (src : Addr) (now : Nat) : Inflight × Bool :=
+  (s.cleanup now).decide kind tid src now
 
 end Mainline
